@@ -121,6 +121,12 @@ def hyphenAhead (chars : List (Nat × Char)) (i : Nat) : Bool :=
   | some (_, c1), some (_, c2) => c1 == '-' && c2 == ' '
   | _, _ => false
 
+/-- `before.ends_with(['<', '>', '=', '^', '~'])` -/
+def endsWithOp (t : Text) : Bool :=
+  match t.getLast? with
+  | some c => c == '<' || c == '>' || c == '=' || c == '^' || c == '~'
+  | none => false
+
 /-- `VersionSpec::split_and_parts` (matchers/npm.rs) at the level of byte offsets: `i` indexes `chars`,
     `cs` is `current_start`.  Fuel = number of loop iterations left. -/
 def splitLoop (spec : Text) (chars : List (Nat × Char)) : (fuel i cs : Nat) → (acc : List Text) → Option (List Text)
@@ -137,7 +143,9 @@ def splitLoop (spec : Text) (chars : List (Nat × Char)) : (fuel i cs : Nat) →
         | none => none
         | some b =>
           let before := trim b
-          if !before.isEmpty then
+          -- an operator separated from its version (">= 1.0.0"): the space belongs to the part
+          if endsWithOp before then splitLoop spec chars fuel (i + 1) cs acc
+          else if !before.isEmpty then
             if hyphenAhead chars i then splitLoop spec chars fuel (i + 3) cs acc
             else splitLoop spec chars fuel (i + 1) (pos + 1) (acc ++ [before])
           else splitLoop spec chars fuel (i + 1) cs acc
